@@ -280,6 +280,29 @@ class Ctx:
         self.violation("trace %s rejected by %s: %s" % (what, module, detail), dst, key=key)
         return False
 
+    def tlaps(self, module, deps=(), timeout=900):
+        """TLAPS proof of spec/proofs/<module>.tla (an invariant without bounds on the constants or the number of steps).
+        A model-level fact: if the proof system cannot be run, or some obligation is not discharged, the check is
+        inconclusive -- verdicts about the code come from the bindings."""
+        d = tempfile.mkdtemp(prefix="tlaps-", dir=self.scratch)
+        shutil.copy(os.path.join(self.specdir, "proofs", module + ".tla"), d)
+        for dep in deps:
+            shutil.copy(os.path.join(self.specdir, dep + ".tla"), d)
+        t0 = time.time()
+        try:
+            p = subprocess.run(["tlapm", "--threads", str(min(8, NCPU)), module + ".tla"], cwd=d, capture_output=True,
+                               text=True, timeout=timeout)
+        except (subprocess.TimeoutExpired, FileNotFoundError) as e:
+            raise Inconclusive("tlapm on %s.tla: %s" % (module, e))
+        out = p.stdout + p.stderr
+        m = re.search(r"All (\d+) obligations proved", out)
+        if not m:
+            raise Inconclusive("%s.tla: not every obligation was proved:\n%s" % (module, out[-2500:]))
+        self.notes.setdefault("tlaps_obligations_proved", {})[module] = int(m.group(1))
+        log("TLAPS %s.tla: all %s obligations proved (%.1fs)" % (module, m.group(1), time.time() - t0))
+        shutil.rmtree(d, ignore_errors=True)
+        return int(m.group(1))
+
     def drift(self, what):
         """The code no longer moves the way the implementation-shaped spec says, without breaking a
         property predicate: the exhaustive results for that spec cannot be trusted until it is updated."""
